@@ -455,6 +455,40 @@ struct Sim<'a> {
     found: Vec<Found>,
     faults: u64,
     c: BTreeMap<&'static str, u64>,
+    /// walfault part: the coordinator logs to a real TxWal that refuses appends from some size on
+    wal: Option<WalFault>,
+}
+
+struct WalFault {
+    path: std::path::PathBuf,
+    /// an append has been refused (observed through a call that failed for that reason)
+    refusing: bool,
+    /// the coordinator has crashed and a new one has recovered from the log
+    restarted: bool,
+}
+
+fn coordinator_config() -> DistributedTxConfig {
+    DistributedTxConfig { prepare_timeout_ms: 0, ..DistributedTxConfig::default() }
+}
+
+fn short_src(src: &str) -> &'static str {
+    if src.starts_with("commit()") {
+        "commit-call"
+    } else if src.starts_with("abort()") {
+        "abort-call"
+    } else if src.contains("cleanup_timeouts") {
+        "timeout-sweep"
+    } else if src.contains("take_pending_aborts") {
+        "abort-broadcast-queue"
+    } else if src.contains("record_vote") {
+        "no-vote"
+    } else if src.contains("complete_commit") {
+        "complete_commit-after-restart"
+    } else if src.contains("complete_abort") {
+        "complete_abort-after-restart"
+    } else {
+        "other"
+    }
 }
 
 impl<'a> Sim<'a> {
@@ -465,7 +499,91 @@ impl<'a> Sim<'a> {
         self.obs.iter().position(|o| o.id == Some(id))
     }
     fn decide(&mut self, i: usize, d: Dec, src: &'static str) {
+        // a decision announced before the coordinator crashed must be the decision afterwards
+        if self.wal.as_ref().map(|w| w.restarted).unwrap_or(false) {
+            if let Some(&(first, fsrc)) = self.obs[i].decisions.first() {
+                if first != d {
+                    self.found.push(Found {
+                        sig: format!("decision-changed-across-coordinator-restart:{:?}({})-then-{:?}({})", first, short_src(fsrc), d, short_src(src)),
+                        detail: format!(
+                            "t{}: {:?} was decided and announced at `{}`; after the coordinator crashed and recovered from its log, {:?} was decided at `{}`",
+                            i, first, fsrc, d, src
+                        ),
+                    });
+                    self.obs[i].decisions.push((d, src));
+                    return;
+                }
+            }
+        }
         observe_decision(&mut self.obs, self.plan, i, d, src, &mut self.found);
+    }
+    fn note_refusal(&mut self, what: &str) {
+        if let Some(w) = self.wal.as_mut() {
+            w.refusing = true;
+            self.trace.push(format!("[wal refused {}]", what));
+            *self.c.entry("wal_append_refusals_injected").or_insert(0) += 1;
+        }
+    }
+    /// the coordinator process dies; a new one is started on the same log (which now has room
+    /// again), recovers, and settles what the log says is in doubt
+    fn crash_and_recover(&mut self, rng: &mut Rng) {
+        let Some(w) = self.wal.as_mut() else { return };
+        let path = w.path.clone();
+        let was_refusing = w.refusing;
+        w.restarted = true;
+        self.trace.push("CRASH+RESTART".to_string());
+        let wal = match tensor_chain::tx_wal::TxWal::open(&path) {
+            Ok(x) => x,
+            Err(e) => {
+                self.found.push(Found { sig: "walfault:wal-open-failed".into(), detail: format!("TxWal::open after the crash failed: {}", e) });
+                return;
+            }
+        };
+        self.coord = DistributedTxCoordinator::new(ConsensusManager::default_config(), coordinator_config()).with_wal(wal);
+        if let Err(e) = self.coord.recover_from_wal() {
+            self.found.push(Found { sig: "walfault:recovery-error".into(), detail: format!("recover_from_wal after the crash failed: {}", e) });
+            return;
+        }
+        self.bump("coordinator_restarts");
+        if was_refusing {
+            self.bump("recoveries_after_refusal");
+        }
+        if rng.bool() {
+            let _ = self.coord.recover();
+        }
+        for i in 0..self.obs.len() {
+            self.obs[i].ready = false;
+        }
+        // in-doubt transactions of the log
+        for (id, phase) in self.coord.get_pending_decisions() {
+            let Some(i) = self.tx_of_id(id) else { continue };
+            match phase {
+                TxPhase::Committing => {
+                    if self.coord.complete_commit(id).is_ok() {
+                        self.trace.push(format!("coord.complete_commit(t{})=ok", i));
+                        self.decide(i, Dec::Commit, "complete_commit() returned Ok after the restart");
+                        self.send_decision(i, Dec::Commit);
+                    }
+                }
+                TxPhase::Aborting => {
+                    if self.coord.complete_abort(id).is_ok() {
+                        self.trace.push(format!("coord.complete_abort(t{})=ok", i));
+                        self.decide(i, Dec::Abort, "complete_abort() returned Ok after the restart");
+                        self.send_decision(i, Dec::Abort);
+                    }
+                }
+                _ => {}
+            }
+        }
+        // transactions the log knows as prepared are the driver's to commit, exactly like before
+        for i in 0..self.obs.len() {
+            if let Some(id) = self.obs[i].id {
+                if self.coord.get(id).map(|t| t.phase == TxPhase::Prepared).unwrap_or(false) {
+                    self.obs[i].ready = true;
+                    self.bump("prepared_restored_after_restart");
+                }
+            }
+        }
     }
     fn begin(&mut self, i: usize) {
         if self.obs[i].id.is_some() {
@@ -483,7 +601,7 @@ impl<'a> Sim<'a> {
                     self.net.push(Msg::Prepare { tx: i, shard: s, to: s });
                 }
             }
-            Err(_) => {}
+            Err(_) => self.note_refusal("TxBegin"),
         }
     }
     fn send_decision(&mut self, i: usize, d: Dec) {
@@ -493,7 +611,15 @@ impl<'a> Sim<'a> {
     }
     fn coord_commit(&mut self, i: usize) {
         let Some(id) = self.obs[i].id else { return };
+        let phase_before = self.coord.get(id).map(|t| t.phase);
+        if phase_before.is_some() && self.wal.as_ref().map(|w| w.refusing && !w.restarted).unwrap_or(false) {
+            self.bump("decisions_attempted_with_refusing_wal");
+        }
         let ok = self.coord.commit(id).is_ok();
+        if !ok && phase_before == Some(TxPhase::Prepared) {
+            // the only reason commit() refuses a prepared transaction is that it cannot log
+            self.note_refusal("the commit records");
+        }
         self.trace.push(format!("coord.commit(t{})={}", i, if ok { "ok" } else { "refused" }));
         self.bump(if ok { "ev:coord-commit-ok" } else { "ev:coord-commit-refused" });
         if ok {
@@ -503,7 +629,15 @@ impl<'a> Sim<'a> {
     }
     fn coord_abort(&mut self, i: usize) {
         let Some(id) = self.obs[i].id else { return };
+        let known_before = self.coord.get(id).is_some();
+        if known_before && self.wal.as_ref().map(|w| w.refusing && !w.restarted).unwrap_or(false) {
+            self.bump("decisions_attempted_with_refusing_wal");
+        }
         let ok = self.coord.abort(id, "client abort").is_ok();
+        if !ok && known_before {
+            // the only reason abort() refuses a known transaction is that it cannot log
+            self.note_refusal("the abort records");
+        }
         self.trace.push(format!("coord.abort(t{})={}", i, if ok { "ok" } else { "refused" }));
         self.bump(if ok { "ev:coord-abort-ok" } else { "ev:coord-abort-refused" });
         if ok {
@@ -555,6 +689,11 @@ impl<'a> Sim<'a> {
                 let Some(id) = self.obs[tx].id else { return };
                 let yes = matches!(vote, PrepareVote::Yes { .. });
                 match self.coord.record_vote(id, shard, vote) {
+                    Ok(None) if self.wal.is_some() && !self.coord.get(id).map(|t| t.votes.contains_key(&shard)).unwrap_or(false) => {
+                        // with a log, record_vote answers Ok(None) without recording the vote
+                        // when the vote cannot be logged: not an accepted vote
+                        self.note_refusal("PrepareVote");
+                    }
                     Ok(r) => {
                         self.bump("ev:vote-accepted");
                         if !self.plan.txs[tx].participants.contains(&shard) {
@@ -629,9 +768,35 @@ impl<'a> Sim<'a> {
 }
 
 fn sim_case(case_seed: u64, rep: &mut Report) {
+    sim_case_with(case_seed, rep, None);
+}
+
+/// the sim schedule with a coordinator that logs to a TxWal refusing appends beyond a seeded size
+/// (size limit reached, rotation off), a coordinator crash at a seeded event, recovery from the
+/// log into a new coordinator, and the rest of the schedule on that one
+fn walfault_case(case_seed: u64, rep: &mut Report, scratch: &std::path::Path) {
+    let dir = Scratch::new(scratch, "c03w");
+    sim_case_with(case_seed, rep, Some(dir.join("tx.wal")));
+}
+
+fn sim_case_with(case_seed: u64, rep: &mut Report, wal_path: Option<std::path::PathBuf>) {
     let mut rng = Rng::new(case_seed);
-    let plan = gen_plan(&mut rng, 3, true);
-    let (coord, parts) = build_world(&plan);
+    let plan = gen_plan(&mut rng, 3, wal_path.is_none());
+    let (mut coord, parts) = build_world(&plan);
+    let walfault = wal_path.is_some();
+    if let Some(path) = &wal_path {
+        // room for a seeded number of bytes: typically enough for one or two transactions to get
+        // prepared, then begin / vote / commit / abort records are refused
+        let limit = 60 + rng.below(420) as u64;
+        let cfg = tensor_chain::raft_wal::WalConfig { max_size_bytes: limit, auto_rotate: false, ..Default::default() };
+        match tensor_chain::tx_wal::TxWal::open_with_config(path, cfg) {
+            Ok(w) => coord = DistributedTxCoordinator::new(ConsensusManager::default_config(), coordinator_config()).with_wal(w),
+            Err(_) => {
+                rep.inconclusive("walfault: cannot open the scratch log");
+                return;
+            }
+        }
+    }
     let mut sim = Sim {
         plan: &plan,
         coord,
@@ -643,18 +808,23 @@ fn sim_case(case_seed: u64, rep: &mut Report) {
         found: Vec::new(),
         faults: 0,
         c: BTreeMap::new(),
+        wal: wal_path.map(|path| WalFault { path, refusing: false, restarted: false }),
     };
     // per-case fault profile
     let p_dup = rng.below(25) as u32;
     let p_drop = rng.below(20) as u32;
     let w_sweep = [0u32, 1, 1, 3][rng.below(4)];
-    let w_abort = [0u32, 1, 2][rng.below(3)];
+    let w_abort = if walfault { [1u32, 2, 4][rng.below(3)] } else { [0u32, 1, 2][rng.below(3)] };
     let w_hostile_commit = [0u32, 1, 2][rng.below(3)];
     let w_misroute = [0u32, 0, 2, 5][rng.below(4)];
     let max_events = 40 + rng.below(160);
+    let crash_at = if walfault { 10 + rng.below(max_events - 10) } else { usize::MAX };
     let n = plan.txs.len();
     sim.begin(0);
-    for _ in 0..max_events {
+    for ev in 0..max_events {
+        if ev == crash_at {
+            sim.crash_and_recover(&mut rng);
+        }
         let unbegun: Vec<usize> = (0..n).filter(|&i| sim.obs[i].id.is_none()).collect();
         let ready: Vec<usize> = (0..n).filter(|&i| sim.obs[i].ready && sim.obs[i].decision().is_none()).collect();
         let w = [
@@ -764,9 +934,9 @@ fn sim_case(case_seed: u64, rep: &mut Report) {
     // ---- report
     let committed = sim.obs.iter().filter(|o| o.decision() == Some(Dec::Commit)).count() as u64;
     let aborted = sim.obs.iter().filter(|o| o.decision() == Some(Dec::Abort)).count() as u64;
-    rep.count("sim_cases", 1);
-    rep.count("decided:commit", committed);
-    rep.count("decided:abort", aborted);
+    rep.count(if walfault { "walfault_cases" } else { "sim_cases" }, 1);
+    rep.count(if walfault { "walfault:decided:commit" } else { "decided:commit" }, committed);
+    rep.count(if walfault { "walfault:decided:abort" } else { "decided:abort" }, aborted);
     for (k, v) in &sim.c {
         rep.count(k, *v);
     }
@@ -786,7 +956,7 @@ fn sim_case(case_seed: u64, rep: &mut Report) {
         rep.violation(
             f.sig,
             format!("{} | plan {} | trace: {}", f.detail, plan_json(&plan), trace),
-            json!({"mode": "sim", "case_seed": case_seed}),
+            json!({"mode": if walfault { "walfault" } else { "sim" }, "case_seed": case_seed}),
         );
     }
 }
@@ -1250,6 +1420,8 @@ fn main() {
                     break;
                 }
             }
+        } else if rp["mode"].as_str() == Some("walfault") {
+            walfault_case(seed, &mut total, &args.scratch);
         } else {
             sim_case(seed, &mut total);
         }
@@ -1257,6 +1429,10 @@ fn main() {
         if mode == "both" || mode == "sim" {
             let n = args.extra_u64("cases", args.by_tier(12_000, 600_000));
             let rep = par_cases(args.threads, args.seed, n, args.budget(50, 600), |_i, s, r| sim_case(s, r));
+            total.merge(rep);
+            let n = args.extra_u64("walfault-cases", args.by_tier(4_000, 150_000));
+            let scratch = args.scratch.clone();
+            let rep = par_cases(args.threads, args.seed ^ 0x3C, n, args.budget(25, 240), move |_i, s, r| walfault_case(s, r, &scratch));
             total.merge(rep);
         }
         if mode == "both" || mode == "threaded" {
@@ -1285,6 +1461,11 @@ fn main() {
                 ("ev:vote-rejected", 300),
                 ("timeouts-fired", 200),
                 ("ev:coord-commit-refused", 100),
+                ("walfault_cases", 500),
+                ("wal_append_refusals_injected", 500),
+                ("decisions_attempted_with_refusing_wal", 200),
+                ("recoveries_after_refusal", 200),
+                ("prepared_restored_after_restart", 50),
             ]);
         }
         if mode == "both" || mode == "threaded" {
